@@ -46,25 +46,63 @@ def rule_commands(rep: Report, repo: Repo) -> None:
         if isinstance(r, ast.Return) and isinstance(r.value, ast.Tuple) and isinstance(r.value.elts[0], ast.Constant):
             produced.add(r.value.elts[0].value)
     a = repo.func(BRK, 'BreakpointHandler.apply_debug_action')
-    handled: Dict[str, List[str]] = {}
-    cur: Any = [s for s in a.body if isinstance(s, ast.If)][0]
-    while True:
-        t = cur.test
-        if isinstance(t, ast.Compare) and norm(t.left) == 'command' and isinstance(t.comparators[0], ast.Constant):
-            handled[t.comparators[0].value] = [norm(s) for s in cur.body]
-        if len(cur.orelse) == 1 and isinstance(cur.orelse[0], ast.If):
-            cur = cur.orelse[0]
-        else:
-            break
     site = f'{BRK}:{a.lineno} apply_debug_action'
-    rep.check(produced == set(handled) == {'step', 'skip', 'continue', 'continue_all', 'exit'}, 'C15.COMMANDS', 'names',
-              f'produced {sorted(produced)}; handled {sorted(handled)}', site)
-    rep.check(handled.get('step') == ['self.next_break = op_counter + 1'], 'C15.COMMANDS', 'step', str(handled.get('step')), site)
-    rep.check(handled.get('skip') == ['self.next_break = op_counter + argument'], 'C15.COMMANDS', 'skip', str(handled.get('skip')), site)
-    rep.check(handled.get('continue') == ['self.next_break = None'], 'C15.COMMANDS', 'continue', str(handled.get('continue')), site)
-    rep.check(handled.get('continue_all') == ['self.next_break = None', 'raise BreakpointHandlerUnnecessary()'], 'C15.COMMANDS', 'continue_all',
-              str(handled.get('continue_all')), site)
-    rep.check(handled.get('exit') == ['raise KeyboardInterrupt()'], 'C15.COMMANDS', 'exit', str(handled.get('exit')), site)
+    from ..linexpr import Env, lin_show, py_ir, to_lin
+
+    def decide(test: ast.expr, cmd: str) -> Optional[bool]:
+        """truth of a dispatch test when `command` is the constant cmd (None: not a test on the command name)."""
+        if isinstance(test, ast.Compare) and len(test.ops) == 1 and norm(test.left) == 'command':
+            op, rhs = test.ops[0], test.comparators[0]
+            if isinstance(rhs, ast.Constant) and isinstance(op, (ast.Eq, ast.NotEq)):
+                return (rhs.value == cmd) == isinstance(op, ast.Eq)
+            if isinstance(rhs, (ast.Tuple, ast.List, ast.Set)) and all(isinstance(e, ast.Constant) for e in rhs.elts) and isinstance(op, (ast.In, ast.NotIn)):
+                return (cmd in [e.value for e in rhs.elts]) == isinstance(op, ast.In)      # type: ignore[attr-defined]
+        if isinstance(test, ast.BoolOp):
+            vals = [decide(v, cmd) for v in test.values]
+            if None in vals:
+                return None
+            return all(vals) if isinstance(test.op, ast.And) else any(vals)
+        if isinstance(test, ast.UnaryOp) and isinstance(test.op, ast.Not):
+            v = decide(test.operand, cmd)
+            return None if v is None else not v
+        return None
+
+    def effects(stmts: List[ast.stmt], cmd: str, out: List[str]) -> bool:
+        """append the effects executed for this command in order; True when the path ended (raise / return)."""
+        for st in stmts:
+            if isinstance(st, ast.If):
+                d = decide(st.test, cmd)
+                if d is None:
+                    out.append(f'?if {norm(st.test)}')
+                    continue
+                if effects(st.body if d else st.orelse, cmd, out):
+                    return True
+            elif isinstance(st, ast.Assign) and norm(st.targets[0]) == 'self.next_break':
+                out.append('next_break=' + ('None' if norm(st.value) == 'None' else lin_show(to_lin(py_ir(st.value), Env({})))))
+            elif isinstance(st, ast.Raise):
+                out.append('raise ' + (dotted(st.exc.func) if isinstance(st.exc, ast.Call) else norm(st.exc) if st.exc else ''))
+                return True
+            elif isinstance(st, ast.Return):
+                return True
+            elif isinstance(st, ast.Assign) and norm(st.targets[0]).replace('(', '').replace(')', '') == 'command, argument' and norm(st.value) == 'action':
+                continue
+            elif isinstance(st, ast.Expr) and isinstance(st.value, ast.Constant):
+                continue
+            else:
+                out.append(f'other {norm(st)[:40]}')
+        return False
+
+    want = {'step': ['next_break=op_counter + 1'], 'skip': ['next_break=argument + op_counter'], 'continue': ['next_break=None'],
+            'continue_all': ['next_break=None', 'raise BreakpointHandlerUnnecessary'], 'exit': ['raise KeyboardInterrupt']}
+    handled: Dict[str, List[str]] = {}
+    for cmd in sorted(produced | set(want)):
+        eff: List[str] = []
+        effects(a.body, cmd, eff)
+        handled[cmd] = eff
+    rep.check(produced == set(want) and all(handled[c] for c in produced), 'C15.COMMANDS', 'names',
+              f'produced {sorted(produced)}; handled {sorted(c for c in handled if handled[c])}', site)
+    for cmd, w_eff in want.items():
+        rep.check(handled.get(cmd) == w_eff, 'C15.COMMANDS', cmd, str(handled.get(cmd)), site, expected=str(w_eff))
     # skip count positive, taken from the user's argument
     txt = norm(q)
     rep.check('count = int(argument, 0)' in txt and 'if count <= 0:' in txt and "return ('skip', count)" in txt, 'C15.COMMANDS', 'skip-count-positive',
